@@ -521,7 +521,11 @@ def _splice_statement(m: ast.FunctionDef, call: ast.Call, helper: ast.FunctionDe
                 if isinstance(v, ast.Name) and isinstance(target, ast.Name) and v.id == target.id:
                     return []  # `return x` into `x = ...`: nothing to do
                 return [ast.copy_location(ast.Assign(targets=[copy.deepcopy(target)], value=v), node)]
-        out, always = _tailify(new_body, mk)
+        search = _search_loop(new_body, mk) if not isinstance(st, ast.Expr) else None
+        if search is not None:
+            out, always = search, True
+        else:
+            out, always = _tailify(new_body, mk)
         if not always and not isinstance(st, ast.Expr):
             out = out + mk(None, st)
         if not out:
@@ -538,6 +542,46 @@ def _splice_statement(m: ast.FunctionDef, call: ast.Call, helper: ast.FunctionDe
                     x.end_lineno = getattr(st, "end_lineno", st.lineno)
     lst[i:i + 1] = pre + out
     ast.fix_missing_locations(m)
+
+
+def _search_loop(body: List[ast.stmt], mk) -> Optional[List[ast.stmt]]:
+    """The "find the first" helper - return-free statements, then one `for` whose only returns are `return v` directly under (possibly
+    nested) `if`s of the loop body, then a final `return w` - spliced as `for ...: if c: x = v; break` / `else: x = w`."""
+    if len(body) < 2 or not isinstance(body[-1], ast.Return) or not isinstance(body[-2], ast.For) or body[-2].orelse:
+        return None
+    if any(_contains_return(b) for b in body[:-2]):
+        return None
+    loop = body[-2]
+    if any(isinstance(x, (ast.For, ast.While, ast.Try, ast.With)) for b in loop.body for x in ast.walk(b)):
+        return None  # a `break` would leave the wrong loop / the return sits in a construct we do not restructure
+
+    ok = True
+
+    def conv(stmts: List[ast.stmt]) -> List[ast.stmt]:
+        nonlocal ok
+        out: List[ast.stmt] = []
+        for s_ in stmts:
+            if isinstance(s_, ast.Return):
+                out.extend(mk(s_.value, s_))
+                out.append(ast.copy_location(ast.Break(), s_))
+                return out
+            if isinstance(s_, ast.If) and _contains_return(s_):
+                s_.body = conv(s_.body) or [ast.Pass()]
+                s_.orelse = conv(s_.orelse)
+                out.append(s_)
+                continue
+            if _contains_return(s_):
+                ok = False
+            out.append(s_)
+        return out
+
+    if not any(_contains_return(b) for b in loop.body):
+        return None
+    loop.body = conv(loop.body)
+    if not ok:
+        raise NotInlinable("return in an unsupported position of a search loop")
+    loop.orelse = mk(body[-1].value, body[-1]) or [ast.copy_location(ast.Pass(), body[-1])]
+    return body[:-2] + [loop]
 
 
 def _always_returns(stmts: List[ast.stmt]) -> bool:
